@@ -34,6 +34,11 @@ def _lower_bound_from_guards(fn, defs, idom, block, op):
             if sop["pl"]["p"]:
                 continue
             ds = [d for d in defs.get(sop["pl"]["l"], []) if d[0] == bi]
+            if not ds:
+                # a bool returned by a call is defined by the terminator of the preceding block
+                alld = defs.get(sop["pl"]["l"], [])
+                if len(alld) == 1 and alld[0][1] == "term":
+                    ds = alld
             if len(ds) != 1:
                 continue
             d = ds[0][2]
